@@ -379,6 +379,9 @@ def scenarios(draw, prof: dict | None = None):
         sc["gsc_reads_best"] = draw(st.sampled_from([False, False, True]))
         sc["observe_every"] = draw(st.sampled_from([1, 1, 2, 3]))
         sc["observe_offset"] = draw(st.integers(0, 2))
+    if prof.get("allow_cache"):
+        # FunctionProblem(use_cache=True): a genome seen before is answered from the cache (opt-in feature of pyhms)
+        sc["use_cache"] = draw(st.sampled_from([False, False, True]))
     if prof.get("extra") is not None:
         sc["extra"] = draw(prof["extra"])
     return sc
@@ -400,4 +403,5 @@ def scenario_summary(sc: dict) -> dict:
         "sprout": {k: (v if k != "generator" else v.get("kind")) for k, v in sc["sprout"].items()},
         "options": sc["options"],
         "shared_problem": sc.get("shared_problem"),
+        "use_cache": bool(sc.get("use_cache")),
     }
